@@ -108,6 +108,12 @@ def preplay(ctx, binary, bs, opts, shards=6, count=True, label='r'):
         t.join()
     if errs:
         raise errs[0] if isinstance(errs[0], vlib.Broken) else vlib.Broken(str(errs[0]))
+    if ctx.mismatches:
+        raise Found()
+
+
+class Found(Exception):
+    """A disagreement was observed on the real code: the verdict is settled, the remaining legs are skipped."""
 
 
 C21_INV = ('TypeOK', 'NoDup', 'CapOK', 'PerSenderOK', 'IndexAgree', 'LatestOK')
@@ -131,7 +137,11 @@ def all_cfg(mode, **kw):
 def mc(ctx, st, q, invariants, properties, defects):
     """Exhaustive check of the reference model on the small universe (quick) / the 6-entry universe (thorough)."""
     # measured: quick 10 237 distinct / 284 689 generated states (TwoDefects)
-    if q:
+    if vlib.REPO != '/repo':
+        # mutation run (VERIF_REPO=<worktree>): the model does not depend on the code, the smallest universe is enough
+        kw = dict(Tab='TabU5', Ent=5, Cap=2, PerSender=1, MaxLast=1, MaxH=2, MaxNow=1, MaxBlk=1, LevelFee='TRUE', TierAt=1)
+        defects = 'TwoDefects' if defects == 'AllDefects' else defects
+    elif q:
         kw = dict(Tab='TabU6', Ent=6, Cap=3, PerSender=2, MaxLast=2, MaxH=2, MaxNow=1, MaxBlk=1, LevelFee='TRUE', TierAt=2)
         if defects == 'AllDefects':
             defects = 'TwoDefects'
@@ -140,8 +150,10 @@ def mc(ctx, st, q, invariants, properties, defects):
     ctx.write_cfg(st, 'mc.cfg', cfg_text(view='view', invariants=invariants, properties=properties, Defects=defects,
                                          MaxRm=1, EmitOn='FALSE', **kw))
     r = ctx.tlc_mc('Mempool_MC', 'mc.cfg', workers=4, timeout=7200, stage=st, coverage=not q)
-    if not q and r.get('zero_actions'):
-        raise vlib.Broken('vacuous model-checking run, actions never taken: %s' % r['zero_actions'])
+    # Reorg (node-rig generation only) and GetTxList (no state change; C23OK quantifies over all requests) are switched off here
+    zeros = [z for z in (r.get('zero_actions') or []) if not any(n in z for n in ('<Reorg ', '<GetTxList '))]
+    if not q and zeros:
+        raise vlib.Broken('vacuous model-checking run, actions never taken: %s' % zeros)
     return r
 
 
@@ -187,18 +199,25 @@ def concurrent_leg(ctx, b, q):
         ctx.trace_selftest('Mempool_Trace', 'Mempool_Trace.cfg', last_ok, mutate=mutate)
 
 
-def node_leg(ctx, b, st, q, label, **kw):
+def node_leg(ctx, b, st, q, label, want=('Reorg',), **kw):
     """Behaviours a full node can be made to perform (Reorg instead of a lone DelBlock, no lone sweep) replayed on a
-    util/testnode: blocks are executed by a factory node and delivered through BlockChain.ProcAddBlockMsg."""
+    util/testnode: blocks are executed by a factory node and delivered through BlockChain.ProcAddBlockMsg. Node starts are
+    expensive, so more behaviours are generated than replayed and those containing the wanted steps are preferred."""
     name = 'gen_node_%s.cfg' % label
-    c = dict(Cap=3, PerSender=2, MaxLast=2, NodeRig='TRUE', SubW=2, MaxRm=1, MaxH=3, MaxNow=1)
+    c = dict(Cap=3, PerSender=2, MaxLast=2, NodeRig='TRUE', SubW=1, MaxRm=1, MaxH=3, MaxNow=1)
     c.update(kw)
     ctx.write_cfg(st, name, cfg_text(**c))
-    bs = ctx.tlc_sim('Mempool_MC', name, num=24 if q else 240, depth=12 if q else 16, stage=st, keep_init=True,
+    keep = 24 if q else 160
+    bs = ctx.tlc_sim('Mempool_MC', name, num=keep * 4, depth=12 if q else 16, stage=st, keep_init=True,
                      seed=ctx.seed * 10 + 7, timeout=3600)
-    n_reorg = sum(1 for x in bs if any(s.get('op') == 'Reorg' for s in x['steps']))
-    ctx.extra['node_rig'] = dict(behaviours=len(bs), with_reorganisation=n_reorg)
-    preplay(ctx, b, bs, dict(rig='node'), shards=4, label='node-' + label)
+
+    def wanted(x):
+        return any(s.get('op') in want for s in x['steps'])
+    first = [x for x in bs if wanted(x)]
+    rest = [x for x in bs if not wanted(x)]
+    sel = (first[:(keep * 3) // 4] + rest)[:keep]
+    ctx.extra['node_rig'] = dict(generated=len(bs), replayed=len(sel), with_reorganisation=sum(1 for x in sel if wanted(x)))
+    preplay(ctx, b, sel, dict(rig='node'), shards=4, label='node-' + label)
 
 
 def run(ctx):
@@ -208,7 +227,10 @@ def run(ctx):
     ctx.assumptions += ['hash function and signatures trusted', 'one clock tick = 1000 s (> pool-age limit 600 s + 60 s margin)',
                         'no 5-byte short-hash collisions among generated transactions',
                         'blockchain / execs / rpc answers of the bare rig follow the model chain (executor check always passes)']
-    {'C21': run_c21, 'C22': run_c22, 'C23': run_c23}[ctx.prop](ctx, q, b, st)
+    try:
+        {'C21': run_c21, 'C22': run_c22, 'C23': run_c23}[ctx.prop](ctx, q, b, st)
+    except Found:
+        ctx.notes.append('stopped at the first leg that disagreed; later legs were not run')
 
 
 def run_c21(ctx, q, b, st):
@@ -217,7 +239,7 @@ def run_c21(ctx, q, b, st):
                 'compared after every step; non-trivial = contains a failed push (duplicate / per-sender limit / full), a removal '
                 'of an absent hash, an expiry removal, or a DelBlock re-admission; distinct by abstract action sequence')
     mc(ctx, st, q, C21_INV, ('BlockGone',), 'NoDefects')
-    n = 150 if q else 1200
+    n = 150 if q else 700
     confs = [(3, 2, 2), (2, 1, 1), (2, 2, 3)] if q else [(3, 2, 2), (2, 1, 1), (2, 2, 3), (3, 1, 2), (4, 2, 2), (1, 1, 1)]
     for i, (cap, per, last) in enumerate(confs):
         name = 'gen_c21_%d.cfg' % i
@@ -251,13 +273,14 @@ def run_c22(ctx, q, b, st):
         total += len(allb)
         preplay(ctx, b, allb, dict(rig='bare'), label='c22-all-%d' % i)
     ctx.extra['exhaustive_small_config'] = dict(cfg='all_c22_*.cfg (Mode=admit)', behaviours=total)
-    n = 120 if q else 1000
+    n = 120 if q else 700
     for i, (cap, per, lvl, tier) in enumerate([(3, 2, 'TRUE', 2), (2, 1, 'FALSE', 2)] if q else
                                               [(3, 2, 'TRUE', 2), (2, 1, 'FALSE', 2), (3, 1, 'TRUE', 1), (4, 2, 'TRUE', 3)]):
         name = 'gen_c22_%d.cfg' % i
         ctx.write_cfg(st, name, cfg_text(Cap=cap, PerSender=per, LevelFee=lvl, TierAt=tier, Defects='AllDefects', MaxRm=1, SubW=4))
         bs = ctx.tlc_sim('Mempool_MC', name, num=n, depth=16 if q else 22, stage=st, keep_init=True, seed=ctx.seed * 10 + i, timeout=3600)
         preplay(ctx, b, bs, dict(rig='bare'), label='c22-%d' % i)
+    node_leg(ctx, b, st, q, 'c22', want=('Reorg', 'AddBlock'), Defects='AllDefects', LevelFee='TRUE', TierAt=2)
 
 
 def run_c23(ctx, q, b, st):
@@ -273,12 +296,13 @@ def run_c23(ctx, q, b, st):
     allb = ctx.tlc_genall('Mempool_All', 'all_c23.cfg', stage=st, timeout=7200)
     preplay(ctx, b, allb, dict(rig='bare'), label='c23-all')
     ctx.extra['exhaustive_small_config'] = dict(cfg='all_c23.cfg (Mode=list)', behaviours=len(allb))
-    n = 150 if q else 1200
+    n = 150 if q else 700
     for i, (cap, per) in enumerate([(4, 3), (3, 2)] if q else [(4, 3), (3, 2), (5, 4), (2, 2)]):
         name = 'gen_c23_%d.cfg' % i
         ctx.write_cfg(st, name, cfg_text(Cap=cap, PerSender=per, QueryOn='TRUE', SubW=5, MaxRm=1, MaxH=3, MaxNow=2))
         bs = ctx.tlc_sim('Mempool_MC', name, num=n, depth=24 if q else 30, stage=st, keep_init=True, seed=ctx.seed * 10 + i, timeout=3600)
         preplay(ctx, b, bs, dict(rig='bare'), label='c23-%d' % i)
+    node_leg(ctx, b, st, q, 'c23', want=('Reorg', 'GetTxList'), QueryOn='TRUE', Cap=4, PerSender=3)
 
 
 import vlib  # noqa: E402
